@@ -443,15 +443,33 @@ impl Gen {
         }
     }
 
+    /// A statement list whose value is `e`: usually the expression statement itself, sometimes the
+    /// expression at the end of a bare block (nested once or twice) - the value of a statement list is
+    /// the value of its last statement whatever that statement's shape.
+    fn tail(&mut self, e: Expr) -> Vec<Stmt> {
+        let r: f64 = self.rng.gen();
+        if r < 0.10 {
+            vec![Stmt::Block(vec![Stmt::Expr(e)])]
+        } else if r < 0.14 {
+            vec![Stmt::Block(vec![Stmt::Block(vec![Stmt::Expr(e)])])]
+        } else if r < 0.18 {
+            vec![Stmt::Block(vec![Stmt::Expr(Expr::Int(0)), Stmt::Expr(e)])]
+        } else {
+            vec![Stmt::Expr(e)]
+        }
+    }
+
     fn if_expr(&mut self, ty: &Ty, depth: usize) -> Expr {
         let d = depth.saturating_sub(1);
         let c = self.bool_expr(d, false);
         let t = self.expr(ty, d);
         let e = self.expr(ty, d);
+        let th = self.tail(t);
+        let el = self.tail(e);
         Expr::If {
             c: b(c),
-            th: vec![Stmt::Expr(t)],
-            el: Some(vec![Stmt::Expr(e)]),
+            th,
+            el: Some(el),
         }
     }
 
@@ -812,7 +830,8 @@ impl Gen {
         if self.chance(0.3) {
             body.push(Stmt::Return(result));
         } else {
-            body.push(Stmt::Expr(result));
+            let t = self.tail(result);
+            body.extend(t);
         }
         self.mult = saved_mult;
         self.repeated -= 1;
@@ -1082,7 +1101,9 @@ impl Gen {
         self.stmts_into(&mut body, n, depth.saturating_sub(1));
         if self.chance(0.4) {
             let t = self.pick_scalar_ty();
-            body.push(Stmt::Expr(self.expr(&t, 2)));
+            let e = self.expr(&t, 2);
+            let tl = self.tail(e);
+            body.extend(tl);
         }
         self.cur().scopes.pop();
         body
@@ -1220,7 +1241,8 @@ impl Gen {
         if self.chance(0.9) {
             let t = self.pick_ty();
             let e = self.expr(&t, self.cfg.max_depth);
-            out.push(Stmt::Expr(e));
+            let tl = self.tail(e);
+            out.extend(tl);
         }
         out
     }
